@@ -139,6 +139,9 @@ func SiteFromStack(st string) string {
 		if i := strings.Index(file, "/repo/"); i >= 0 {
 			file = file[i+len("/repo/"):]
 		}
+		if alt := os.Getenv("VERIF_REPO"); alt != "" && strings.HasPrefix(file, alt+"/") {
+			file = file[len(alt)+1:]
+		}
 		fn = strings.TrimPrefix(fn, "github.com/gopacket/gopacket")
 		fn = strings.TrimPrefix(fn, "/")
 		return fn + "|" + file + ":" + m[3]
